@@ -5,6 +5,7 @@ import (
 	"go/token"
 	"go/types"
 	"regexp"
+	"strconv"
 	"strings"
 
 	"golang.org/x/tools/go/ssa"
@@ -147,7 +148,13 @@ func init() {
 		"fmt.Sprintf": func(e *Engine, a []Value) Value { return Str{S: mFormat(e, a)} },
 
 		twigPkg + "symObserve": func(e *Engine, a []Value) Value {
-			e.observed = append(e.observed, a[0].(Str).S+"="+e.obsString(a[1]))
+			if e.vector != nil {
+				e.observed = append(e.observed, a[0].(Str).S+"="+e.obsString(a[1]))
+			}
+			return nil
+		},
+		twigPkg + "symPoolModel": func(e *Engine, a []Value) Value {
+			e.poolModel = e.concInt(a[0])
 			return nil
 		},
 		twigPkg + "symString": func(e *Engine, a []Value) Value {
@@ -171,11 +178,19 @@ func init() {
 		twigPkg + "symChoice": func(e *Engine, a []Value) Value {
 			n := e.concInt(a[0])
 			if e.vector != nil {
-				return mkInt(64, e.nextVec())
+				v := e.nextVec()
+				if v >= uint64(n) {
+					panic(pathEnd{"infeasible", "choice out of range"})
+				}
+				return mkInt(64, v)
 			}
 			t := e.newSym(64, "c")
 			e.assume(mk("bvult", 0, t, bvConst(64, uint64(n))))
-			return mkInt(64, e.Concretize(Int{W: 64, T: t}))
+			f0 := e.forks
+			v := e.Concretize(Int{W: 64, T: t})
+			e.enumForks += e.forks - f0
+			e.forks = f0
+			return mkInt(64, v)
 		},
 		twigPkg + "symByte": func(e *Engine, a []Value) Value {
 			if e.vector != nil {
@@ -214,13 +229,18 @@ func init() {
 			id := a[1].(Str).S
 			if b.T == nil {
 				if !b.V {
+					if e.vector != nil {
+						e.observed = append(e.observed, "FAIL:"+id)
+					}
 					e.reportViolation(id, nil)
 				}
 				return nil
 			}
 			neg := mkNot(b.T)
-			if r := e.solver.Check(neg); r != "unsat" {
-				e.reportViolation(id+" ["+r+"]", neg)
+			if r := e.solver.Check(neg); r == "sat" {
+				e.reportViolation(id, neg)
+			} else if r != "unsat" {
+				e.reportKind("unknown", id, nil)
 			}
 			if e.solver.Check(b.T) == "unsat" {
 				panic(pathEnd{"ok", "assert always fails on this path"})
@@ -247,11 +267,24 @@ func init() {
 		},
 		twigPkg + "symTag": func(e *Engine, a []Value) Value {
 			e.tags = append(e.tags, a[0].(Str).S)
+			if e.vector != nil {
+				e.observed = append(e.observed, "tag:"+a[0].(Str).S)
+			}
 			return nil
 		},
 		twigPkg + "symCover": func(e *Engine, a []Value) Value {
 			e.covered[a[0].(Str).S]++
+			e.pathCover = append(e.pathCover, a[0].(Str).S)
+			if e.vector != nil {
+				e.observed = append(e.observed, "cover:"+a[0].(Str).S)
+			}
 			return nil
+		},
+		twigPkg + "symParam": func(e *Engine, a []Value) Value {
+			if v, ok := e.params[a[0].(Str).S]; ok {
+				return mkInt(64, uint64(v))
+			}
+			return a[1]
 		},
 	} {
 		intrinsics[k] = v
@@ -428,13 +461,24 @@ func (e *Engine) obsString(v Value) string {
 		if it.T == nil {
 			return "<nil>"
 		}
-		if s, ok := it.V.(Str); ok && s.isC() {
-			return fmt.Sprintf("%q", s.S)
+		switch x := it.V.(type) {
+		case Str:
+			if x.isC() {
+				return strconv.Quote(x.S)
+			}
+			return "<sym>"
+		case Int:
+			if b, ok := it.T.Underlying().(*types.Basic); ok && b.Kind() == types.Int {
+				return e.valString(x)
+			}
+			return "?"
+		case Bool:
+			return e.valString(x)
 		}
-		if _, isErr := it.V.(*Value); isErr {
-			return "<ptr>"
+		if e.methodOf(it.T, "Error") != nil {
+			return "<err>"
 		}
-		return e.valString(it.V)
+		return "?"
 	}
 	return e.valString(v)
 }
